@@ -260,42 +260,10 @@ func c08Leaders(c *Ctx) {
 		r.Fatal("anchor builder.ComputeLeftRecursives not found")
 		return
 	}
-	var marks []string
-	leaderDef := ""
-	ast.Inspect(cl.Body, func(n ast.Node) bool {
-		as, ok := n.(*ast.AssignStmt)
-		if !ok {
-			return true
-		}
-		l := nospace(as.Lhs[0])
-		if strings.HasSuffix(l, ".Leader") || strings.HasSuffix(l, ".LeftRecursive") {
-			marks = append(marks, l+"="+nospace(as.Rhs[0])+" under ["+strings.Join(guardsOf(cl.Body, as.Pos()), ";")+"]")
-		}
-		if l == "leader" && len(as.Rhs) == 1 {
-			leaderDef = nospace(as.Rhs[0])
-		}
-		return true
-	})
-	sort.Strings(marks)
-	joined := strings.Join(marks, " | ")
-	var bad []string
-	for _, want := range []string{
-		"rules[leader].Leader=true under [len(scc)>1]",
-		"rules[name].Leader=true under [len(scc)<=1;ok]",
-		"rules[name].LeftRecursive=true under [len(scc)>1]",
-		"rules[name].LeftRecursive=true under [len(scc)<=1;ok]",
-	} {
-		if !strings.Contains(joined, want) {
-			bad = append(bad, "missing `"+want+"`")
-		}
+	lr := c.leftRecMarks()
+	bad := append(append([]string{}, lr["leader"]...), lr["clears"]...)
+	if len(lr["members"]) > 0 {
+		bad = append(bad, lr["members"]...)
 	}
-	for _, m := range marks {
-		if strings.Contains(m, "=false") {
-			bad = append(bad, "a flag is cleared: "+m)
-		}
-	}
-	if leaderDef != "findLeader(graph,scc)" {
-		bad = append(bad, "the leader of a group is "+leaderDef+", not findLeader(graph, scc)")
-	}
-	r.Check(len(bad) == 0, "C08-e", "G.builder.ComputeLeftRecursives:every-group-gets-a-leader", "", g.Where(cl.Pos()), "Leader set next to LeftRecursive in both branches; leader := findLeader(graph, scc)", strings.Join(bad, "; ")+" (marks: "+joined+")")
+	r.Check(len(bad) == 0, "C08-e", "G.builder.ComputeLeftRecursives:every-group-gets-a-leader", "", g.Where(cl.Pos()), "Leader set next to LeftRecursive in both branches; the leader of a component is findLeader(graph, component)", strings.Join(uniq(bad), "; "))
 }
